@@ -149,9 +149,15 @@ def run(chk):
         same, why = Z.snapshots_equal(snap, now)
         if not (np.array_equal(np.array(sh.vertices), before[0]) and [list(map(int, f)) for f in sh.faces] == before[1]) or not same:
             chk.violation("export-changed-shape", dict(kind=kind, cls=type(sh).__name__, attribute=why, vertices=V.tolist()))
-        st, _ = C.excname(sh.save, "XYZ", os.path.join(tmp, "m.xyz"))
-        if st != "ValueError":
-            chk.violation("unknown-filetype", dict(outcome=st))
+        # anything but the seven documented names is an unknown type: wrong case, fragments and lists of valid names, the empty string
+        for bad in ("XYZ", "obj", "", " ", "O", "TL", "HTM", "X3", ", ", "OBJ, OFF", "STL ", "PLY\n"):
+            fnb = os.path.join(tmp, "m.bad")
+            st, _ = C.excname(sh.save, bad, fnb)
+            wrote = os.path.exists(fnb)
+            if wrote:
+                os.remove(fnb)
+            if st != "ValueError":
+                chk.violation("unknown-filetype", dict(filetype=bad, outcome=st, wrote_a_file=wrote)); break
     try:
         os.rmdir(tmp)
     except OSError:
